@@ -16,7 +16,7 @@ func steps(c *vlib.Case, p *Profile) int {
 
 func TestC02(t *testing.T) {
 	vlib.SetRule("C02", "TestC02", "generated histories (2-4 nodes, <=60 steps quick / <=150 thorough) of local writes, compactions, leaves, joins, gossip rounds and per-packet deliver/drop/duplicate/reorder/partition steps over real gossip nodes with per-node packet limits down to the minimum viable size; a third of the cases never forget a node; oracle after every step: authenticity against the owner's recorded write history, no loss/rollback up to the reported version, staleness only as permitted by the compaction point, own state untouched by received messages, versions monotone; non-trivial = a truncated delta AND one of relay-only learning, duplicate delivery, reordering, compaction after a delete")
-	p := &Profile{Prop: "C02", Oracles: map[string]bool{"C02": true}, AllowNoSweep: true, TinyPackets: true, MaxSteps: maxSteps(60, 150), MaxNodes: maxSteps(4, 6),
+	p := &Profile{Prop: "C02", Oracles: map[string]bool{"C02": true}, AllowNoSweep: true, TinyPackets: true, LongVals: 5, MaxSteps: maxSteps(60, 150), MaxNodes: maxSteps(4, 6),
 		Weights: map[string]int{"compact": 6, "delete": 7}}
 	vlib.RunSync(t, "C02", func(c *vlib.Case) {
 		s := New(c, p)
@@ -247,6 +247,61 @@ func TestC17Observer(t *testing.T) {
 					}
 				}
 			}
+		}
+	})
+}
+
+// exchange runs one full push-pull exchange a -> b with every packet delivered in order.
+func exchange(s *Sim, a, b *Node) {
+	s.begin("gossip", nil)
+	if err := a.n.GossipTo(gossipMeta(b)); err != nil {
+		s.c.Fatalf("%s: gossip %s->%s failed: %v", s.p.Prop, a.id, b.id, err)
+	}
+	for guard := 0; len(s.q) > 0 && guard < 50; guard++ {
+		s.deliverIdx(0)
+		s.checkAll()
+	}
+}
+
+// TestC02Relay: the observer learns about two writers only through a relay, in
+// truncated multi-node deltas with entries of mixed sizes.
+func TestC02Relay(t *testing.T) {
+	vlib.SetRule("C02", "TestC02Relay", "directed relay generator: writers A and B publish bursts of 1-12 entries of mixed sizes (short and up to 72-byte values), deletions and compactions; relay R synchronises fully with both; observer O (small packet limit) talks to R only, a few exchanges at a time, so that it learns both writers from truncated multi-node deltas; same oracle as TestC02 after every delivery; non-trivial = some delta to O was truncated")
+	p := &Profile{Prop: "C02", Oracles: map[string]bool{"C02": true}, TinyPackets: true, LongVals: 5}
+	vlib.RunSync(t, "C02", func(c *vlib.Case) {
+		s := NewN(c, p, 4)
+		a, b, r, o := s.nodes[0], s.nodes[1], s.nodes[2], s.nodes[3]
+		for round, rounds := 0, c.Int("rounds", 1, 6); round < rounds; round++ {
+			for _, w := range []*Node{a, b} {
+				for i, k := 0, c.Int("writes", 0, 12); i < k; i++ {
+					switch c.Weighted("op", []string{"upsert", "delete", "compact"}, []int{8, 2, 1}) {
+					case "upsert":
+						w.n.State.UpsertLocal(s.drawKey()+c.OneOf("suffix", "", "1", "2", "3", "4", "5"), s.drawVal())
+					case "delete":
+						w.n.State.DeleteLocal(s.drawKey() + c.OneOf("suffix", "", "1", "2", "3", "4", "5"))
+					case "compact":
+						w.n.State.CompactLocal(c.Int("threshold", 1, 3))
+					}
+					s.snapshotLocal(w)
+				}
+			}
+			c.Stepf("round %d: writers wrote; relay synchronises", round)
+			// the relay catches up with both writers (several exchanges: its packets truncate too)
+			for i := 0; i < 6; i++ {
+				exchange(s, r, a)
+				exchange(s, r, b)
+			}
+			// the observer talks to the relay only
+			for i, k := 0, c.Int("observerExchanges", 1, 4); i < k; i++ {
+				if c.Bool("observerInitiates") {
+					exchange(s, o, r)
+				} else {
+					exchange(s, r, o)
+				}
+			}
+		}
+		if s.sawTrunc {
+			c.NonTrivial()
 		}
 	})
 }
